@@ -54,9 +54,14 @@ fn base_scenario(kind: &str, seed: u64, run: u64) -> (Scenario, gen::Knobs) {
 /// Operations are Op::Match(rule_index * 10_000 + doc_index). One scenario in eight is a
 /// "gap" history: a match, then a boundary-length run of matches of another rule (254..257,
 /// 65_534..65_537 evaluations, the places where small counters wrap), then a match again.
-fn generate_multirule(seed: u64, run: u64, thorough: bool) -> Scenario {
+fn generate_multirule(seed: u64, run: u64, thorough: bool, force_twins: bool) -> Scenario {
     let mut kr = Rng::stream(seed, run, "KNOBS");
     let mut knobs = gen::Knobs::draw(&mut kr);
+    if force_twins {
+        // the process configuration's twin scenarios: what differs between the twins is mostly in
+        // the pattern texts, so make sure there are regexes and case flags to alter
+        knobs.feat |= gen::F_REGEX | gen::F_ICASE;
+    }
     let mut hr = Rng::stream(seed, run, "HASH");
     let mut sr = Rng::stream(seed, run, "SWITCHES");
     let mut or = Rng::stream(seed, run, "OPS");
@@ -71,13 +76,13 @@ fn generate_multirule(seed: u64, run: u64, thorough: bool) -> Scenario {
     // one scenario in three: the other rules are twins of the first (one aspect altered
     // throughout: case flags, case of the pattern text, nothing, integers) and all rules see all
     // documents, also in the other case
-    let twins = or.chance(1, 3);
+    let twins = or.chance(1, 3) || force_twins;
     let mut first: Option<serde_yaml::Value> = None;
     for r in 0..nrules {
         let mut rr = Rng::stream(seed, run, &format!("RULE{}", r));
         let mut dr = Rng::stream(seed, run, &format!("DOCS{}", r));
         let y = match (&first, twins) {
-            (Some(f), true) => gen::twin_rule(f, if or.chance(1, 2) { 0 } else { or.below(6) }),
+            (Some(f), true) => gen::twin_rule(f, if !force_twins && or.chance(1, 2) { 0 } else { or.below(6) }),
             _ => gen::gen_rule(&mut rr, &knobs),
         };
         for d in gen::docs_for(&mut dr, &y, &knobs, 6) {
@@ -107,7 +112,13 @@ fn generate_multirule(seed: u64, run: u64, thorough: bool) -> Scenario {
         for _ in 0..1 + or.below(3) {
             ops.push(pick(&mut or, 0));
         }
-        let filler = pick(&mut or, 1);
+        let mut filler = pick(&mut or, 1);
+        if or.chance(1, 3) {
+            // the filler's document fails part way through every one of these matches
+            if let Op::Match(code) = filler {
+                filler = Op::MatchPanic(code, 1 + or.below(6) as u32);
+            }
+        }
         for _ in 0..gap {
             ops.push(filler.clone());
         }
@@ -118,9 +129,14 @@ fn generate_multirule(seed: u64, run: u64, thorough: bool) -> Scenario {
         }
     } else {
         let n = if or.chance(1, 12) { 300 + or.below(600) } else { 12 + or.below(40) };
+        let faulty = or.chance(1, 3);
         for _ in 0..n {
             let r = or.below(nrules);
-            ops.push(pick(&mut or, r));
+            let op = pick(&mut or, r);
+            ops.push(match op {
+                Op::Match(code) if faulty && or.chance(1, 6) => Op::MatchPanic(code, 1 + or.below(8) as u32),
+                op => op,
+            });
         }
     }
     Scenario {
@@ -161,9 +177,26 @@ fn exec_multirule(sc: &Scenario) -> Outcome {
             _ => None,
         }
     };
+    // Load order of the rules: by index, or from the last to the first when this process is the
+    // "descending" child of the process configuration. A pure loader gives every rule the same
+    // tree and verdicts in both orders; a process-wide table filled by whichever text came first
+    // does not.
+    let reversed = crate::exec::REVERSE_RULES.load(std::sync::atomic::Ordering::Relaxed);
+    let mut rules: Vec<Option<Rule>> = (0..texts.len()).map(|_| None).collect();
+    let order: Vec<usize> = if reversed { (0..texts.len()).rev().collect() } else { (0..texts.len()).collect() };
+    for r in order {
+        rules[r] = build(&texts[r]);
+    }
+    for r in rules.iter() {
+        match r {
+            Some(r) => d.str(&show(r)),
+            None => d.str("<not loaded>"),
+        };
+    }
     // fresh verdict per (rule, document) pair that the history uses: new thread, new rule
     let mut fresh: std::collections::BTreeMap<usize, Option<bool>> = Default::default();
-    for op in &sc.ops {
+    let op_order: Vec<&Op> = if reversed { sc.ops.iter().rev().collect() } else { sc.ops.iter().collect() };
+    for op in op_order {
         if let Op::Match(code) = op {
             if fresh.contains_key(code) {
                 continue;
@@ -185,8 +218,7 @@ fn exec_multirule(sc: &Scenario) -> Outcome {
         }
     }
     stats.add("fresh_thread_verdicts", fresh.len() as u64);
-    // the long-lived thread (this one): all rules loaded once, history executed in order
-    let rules: Vec<Option<Rule>> = texts.iter().map(|t| build(t)).collect();
+    // the long-lived thread (this one): all rules loaded once (above), history executed in order
     if rules.iter().all(|r| r.is_none()) {
         stats.inc("load_rejected");
         return Outcome::clean(&d, stats);
@@ -194,6 +226,24 @@ fn exec_multirule(sc: &Scenario) -> Outcome {
     stats.inc("rules_loaded");
     let mut compared = 0u64;
     for (k, op) in sc.ops.iter().enumerate() {
+        if let Op::MatchPanic(code, at) = op {
+            let (r, i) = (code / 10_000, code % 10_000);
+            if let (Some(Some(rule)), true) = (rules.get(r), i < sc.docs.len()) {
+                match verdict_doc_panics(rule, &sc.docs[i], &sc.render, *at) {
+                    Ok(None) => {
+                        stats.inc("fault_fired_document_callback_unwinds");
+                        d.u64(3);
+                    }
+                    Ok(Some(v)) => {
+                        d.u64(v as u64);
+                    }
+                    Err(_) => {
+                        d.u64(4);
+                    }
+                }
+            }
+            continue;
+        }
         if let Op::Match(code) = op {
             let (r, i) = (code / 10_000, code % 10_000);
             let rule = match rules.get(r).and_then(|x| x.as_ref()) {
@@ -243,7 +293,12 @@ fn exec_multirule(sc: &Scenario) -> Outcome {
 
 pub fn generate(kind: &str, seed: u64, run: u64, thorough: bool) -> Scenario {
     if kind == "multirule" {
-        return generate_multirule(seed, run, thorough);
+        return generate_multirule(seed, run, thorough, false);
+    }
+    if kind == "multirule_twins" {
+        let mut sc = generate_multirule(seed, run, false, true);
+        sc.ops.truncate(60);
+        return sc;
     }
     if kind == "process" {
         // run 0: hash scenarios, run 1: history scenarios; `run` of the scenario = how many
@@ -256,13 +311,16 @@ pub fn generate(kind: &str, seed: u64, run: u64, thorough: bool) -> Scenario {
                 (0, true) => 3000,
                 (1, false) => 80,
                 (1, true) => 600,
-                (_, false) => 40,
-                (_, true) => 200,
+                (2, false) => 40,
+                (2, true) => 200,
+                (_, false) => 240,
+                (_, true) => 2000,
             },
             strings: vec![match run {
                 0 => "hash".into(),
                 1 => "history".into(),
-                _ => "hash_big".into(),
+                2 => "hash_big".into(),
+                _ => "multirule_twins".into(),
             }],
             origin: "process".into(),
             ..Default::default()
@@ -295,6 +353,8 @@ pub fn generate(kind: &str, seed: u64, run: u64, thorough: bool) -> Scenario {
                     2 => Op::Optimise(1 + or.below(15) as u8, or.next_u64() >> 16),
                     3 => Op::Validate,
                     4 => Op::Show,
+                    5 => Op::MatchPanic(or.below(nd), 1 + or.below(8) as u32),
+                    6 => Op::Disturb(or.below(DISTURB_KINDS as usize) as u8),
                     _ => Op::Match(or.below(nd)),
                 })
                 .collect();
@@ -587,6 +647,8 @@ fn exec_history(sc: &Scenario) -> Outcome {
     for (k, op) in sc.ops.iter().enumerate() {
         stats.inc(&format!("op_{}", match op {
             Op::Match(_) => "match",
+            Op::MatchPanic(_, _) => "match_document_unwinds",
+            Op::Disturb(_) => "load_in_between",
             Op::CloneRule => "clone",
             Op::Serialise => "serialise",
             Op::Optimise(_, _) => "optimise_clone",
@@ -595,6 +657,53 @@ fn exec_history(sc: &Scenario) -> Outcome {
             Op::Reload => "reload",
         }));
         match op {
+            Op::Disturb(k) => {
+                // another (mostly rejected) file is loaded on this thread, then the rule itself is
+                // loaded again: it must be the rule it was the first time, and it replaces `cur`
+                stats.inc(&format!("fault_load_in_between_{}", disturb(*k, &sc.rule_text)));
+                let mut st = Stats::default();
+                match build(&mut st) {
+                    Some(r) => {
+                        let s = show(&r);
+                        if s != show0 {
+                            push_violation(
+                                &mut vs,
+                                Violation::new(
+                                    "load_depends_on_history",
+                                    sw_name(sw),
+                                    format!("op #{}: after another file of the store was loaded (and rejected) on this thread, loading the same text gives another rule:\n  {}\n  {}", k, show0, s),
+                                ),
+                            );
+                        }
+                        cur = r;
+                    }
+                    None => push_violation(
+                        &mut vs,
+                        Violation::new(
+                            "load_depends_on_history",
+                            sw_name(sw),
+                            format!("op #{}: after another file of the store was loaded (and rejected) on this thread, the text that loaded before is rejected or panics", k),
+                        ),
+                    ),
+                }
+            }
+            Op::MatchPanic(i, at) => {
+                if *i >= sc.docs.len() {
+                    continue;
+                }
+                match verdict_doc_panics(&cur, &sc.docs[*i], &sc.render, *at) {
+                    Ok(None) => {
+                        stats.inc("fault_fired_document_callback_unwinds");
+                        d.u64(3);
+                    }
+                    Ok(Some(v)) => {
+                        d.u64(v as u64);
+                    }
+                    Err(_) => {
+                        d.u64(4);
+                    }
+                }
+            }
             Op::Match(i) => {
                 if *i >= sc.docs.len() {
                     continue;
@@ -774,6 +883,13 @@ fn exec_threads(sc: &Scenario) -> Outcome {
             for op in plan {
                 let i = match op {
                     Op::Match(i) => i,
+                    Op::Disturb(_) => continue,
+                    Op::MatchPanic(i, at) => {
+                        if i < docs.len() {
+                            let _ = verdict_doc_panics(&rule, &docs[i], &render, at);
+                        }
+                        continue;
+                    }
                     Op::CloneRule => {
                         let _ = guarded(|| drop((*rule).clone()));
                         continue;
@@ -986,7 +1102,7 @@ fn exec_process(sc: &Scenario) -> Outcome {
 pub fn execute(sc: &Scenario) -> Outcome {
     match sc.kind.as_str() {
         "process" => exec_process(sc),
-        "multirule" => exec_multirule(sc),
+        "multirule" | "multirule_twins" => exec_multirule(sc),
         "hash" => exec_hash(sc),
         "history" => exec_history(sc),
         "threads" => exec_threads(sc),
